@@ -19,14 +19,14 @@ var ErrInjected = errors.New("injected I/O fault")
 
 // World owns the switches shared by FS and Meta.
 type World struct {
-	Armed    bool // crash points enabled
-	Crashed  bool
-	Faults   int // remaining injected faults
-	Sticky   bool // a fault repeats on every later call of the same kind until ClearFaults
-	stuck    map[string]bool
-	Calls    int
-	CrashAt  string // label of the call at which the crash was taken
-	FaultLog []string
+	Armed     bool // crash points enabled
+	Crashed   bool
+	Faults    int  // remaining injected faults
+	Sticky    bool // a fault repeats on every later call of the same kind until ClearFaults
+	stuck     map[string]bool
+	Calls     int
+	CrashAt   string // label of the call at which the crash was taken
+	FaultLog  []string
 	NoCrashIn map[string]bool
 }
 
@@ -50,6 +50,7 @@ func (w *World) point(label string) {
 func (w *World) CrashNow(label string) {
 	w.Crashed = true
 	w.CrashAt = label
+	vrt.Exit()
 }
 
 func (w *World) fault(kind string) bool {
@@ -93,13 +94,14 @@ type file struct {
 
 // FS is an in-memory types.VFS.
 type FS struct {
-	W       *World
-	files   []*file
-	Handles int // handles opened and not yet closed
-	Created []string
-	Deleted []string
-	Syncs   int
-	ReadHook func(name string)
+	W          *World
+	files      []*file
+	Handles    int // handles opened and not yet closed
+	Created    []string
+	Deleted    []string
+	Syncs      int
+	Collisions int // Create calls that hit an existing name
+	ReadHook   func(name string)
 }
 
 func NewFS(w *World) *FS { return &FS{W: w} }
@@ -132,6 +134,9 @@ func (fs *FS) Names() []string {
 	return names
 }
 
+// Exists reports whether a file of that name exists (volatile view).
+func (fs *FS) Exists(name string) bool { return fs.find(name) != nil }
+
 // Data returns the volatile contents of a file (nil if absent).
 func (fs *FS) Data(name string) []byte {
 	if f := fs.find(name); f != nil {
@@ -163,6 +168,7 @@ func (fs *FS) Create(dir, name string, size uint64) (types.WritableFile, error) 
 		return nil, ErrInjected
 	}
 	if fs.find(name) != nil {
+		fs.Collisions++
 		return nil, os.ErrExist
 	}
 	f := &file{name: name, data: make([]byte, size), exists: true, size: int(size)}
@@ -333,21 +339,28 @@ func (fs *FS) CrashImage(w2 *World) *FS {
 		} else if vrt.Bool("prealloc-persisted") {
 			base = make([]byte, f.size)
 		}
+		// length: writes beyond the durable length extend the file; the extension
+		// is file-system metadata and reaches the disk as a whole or not at all
+		// (one Boolean per file; intermediate lengths are outside this model).
+		maxEnd := len(base)
+		for _, pw := range f.pend {
+			if pw.off+len(pw.data) > maxEnd {
+				maxEnd = pw.off + len(pw.data)
+			}
+		}
+		if maxEnd > len(base) && vrt.Bool("extend-persisted") {
+			nb := make([]byte, maxEnd)
+			copy(nb, base)
+			base = nb
+		}
 		for _, pw := range f.pend {
 			for c := 0; c < len(pw.data); c += 8 {
 				e := c + 8
 				if e > len(pw.data) {
 					e = len(pw.data)
 				}
-				end := pw.off + e
-				if end > len(base) {
-					// a chunk beyond the durable length: it can only be there if the extension persisted
-					if !vrt.Bool("extend-persisted") {
-						continue
-					}
-					nb := make([]byte, end)
-					copy(nb, base)
-					base = nb
+				if pw.off+e > len(base) {
+					continue // beyond the persisted length
 				}
 				vrt.MixBytes(base[pw.off+c:pw.off+e], pw.data[c:e], !vrt.Bool("chunk-persisted"))
 			}
@@ -379,12 +392,12 @@ type kv struct {
 
 // Meta is a types.MetaStore: CommitState and SetStable are atomic and durable on return.
 type Meta struct {
-	W      *World
-	State  types.PersistentState
-	stable []kv
-	Open   bool
-	Loads  int
-	Closes int
+	W       *World
+	State   types.PersistentState
+	stable  []kv
+	Open    bool
+	Loads   int
+	Closes  int
 	Commits int
 	CallLog []string
 }
